@@ -172,6 +172,10 @@ func runC17(res *lib.Result, tier string, seed int64, args []string) error {
 		return a == 1, b == 1, c == 1, d == 1, line, nil
 	}
 
+	// configurations on which the implementation and the model disagree about a gate: replayed
+	// end-to-end first (failing-input search seeded by the broken correspondence)
+	var suspects [][]bool
+	nLost, nExtra := 0, 0
 	// ---------------- unit ----------------
 	for i := 0; i < nUnit; i++ {
 		r := root.Fork(uint64(i))
@@ -203,6 +207,15 @@ func runC17(res *lib.Result, tier string, seed int64, args []string) error {
 		res.Dist(fmt.Sprintf("unit.seq%d.pats%d", nseq, len(pats)))
 		if i < 2 {
 			res.Sample(map[string]interface{}{"op": line, "impl_ignored": iIgn, "impl_special": iSpecial})
+		}
+		if iSpecial != mSpecial && nseq == 1 {
+			if !iSpecial && nLost < 4 { // the implementation skips the cross-file pass the model expects
+				suspects = append([][]bool{last}, suspects...)
+				nLost++
+			} else if iSpecial && nExtra < 2 {
+				suspects = append(suspects, last)
+				nExtra++
+			}
 		}
 		if iIgn != mIgn || iSpecial != mSpecial {
 			// correspondence broken: does the implementation also contradict the documented semantics?
@@ -266,6 +279,10 @@ func runC17(res *lib.Result, tier string, seed int64, args []string) error {
 			pats = append(pats, c17Patterns[r.Intn(len(c17Patterns))])
 		}
 		channel := r.Intn(3) // 0 initializationOptions, 1 later didChangeConfiguration, 2 luahelper.json
+		if i < len(suspects) {
+			fl, pats, channel = suspects[i], nil, i%3
+			res.Dist("e2e.suspect")
+		}
 		var sess *lib.Session
 		jsonPath := filepath.Join(dir, "luahelper.json")
 		os.Remove(jsonPath)
